@@ -34,15 +34,16 @@ Exprs(ep) ==
                 \cup {SetE("and", <<a, SetE("or", <<>>)>>) : a \in {l \in g : l.op = "$match"}}
     IN IF Depth <= 1 THEN d1
        ELSE d1 \cup {SetE(o, <<a, NotE(b)>>) : o \in {"and", "or"}, a \in g, b \in g}
-               \cup {SetE("and", <<a, SetE("or", <<b, c>>)>>) : a \in g, b \in g, c \in {l \in g : l.op = "$match"}}
+               \cup {SetE("and", <<a, SetE("or", <<b, c>>)>>) : a \in {l \in g : l.op = "$match"}, b \in g, c \in {l \in g : l.op = "$match"}}
 
 Options(ep) == [pit : BOOLEAN, volumes : IF ep = "logs" THEN {FALSE} ELSE BOOLEAN,
                 effective : IF ep = "logs" THEN {FALSE} ELSE BOOLEAN, pageSize : {1, 3}]
 
 Cases == UNION {{[ep |-> ep, expr |-> e, opt |-> o] : e \in Exprs(ep) \cup {[t |-> "none", op |-> "", key |-> "", val |-> "", items |-> <<>>]}, o \in Options(ep)} : ep \in Endpoints}
 
+\* the cases are a constant of the module (TLC evaluates them once); the behaviour is a single state holding their number
 VARIABLE c
-Init == c \in Cases
+Init == c = Cardinality(Cases)
 Next == UNCHANGED c
 Spec == Init /\ [][Next]_c
 Emit == TLCGet("stats").generated >= 0 /\ ndJsonSerialize(OutFile, SetToSeq(Cases))
